@@ -666,7 +666,7 @@ func runRound(t failer, c RoundCase, class string) {
 
 func TestRoundTrip(t *testing.T) {
 	g := rapid.SliceOfN(genMsg(false, true), 0, 8)
-	vk.R.Rapid(t, 1, 25000, 750000, func(t *rapid.T) {
+	vk.R.Rapid(t, 1, 40000, 750000, func(t *rapid.T) {
 		c := RoundCase{Msgs: g.Draw(t, "msgs"), Chunk: rapid.SampledFrom(chunks).Draw(t, "chunk")}
 		runRound(t, c, "src=round")
 	})
@@ -676,7 +676,7 @@ func TestRoundTrip(t *testing.T) {
 // compared completely even while the id-precision finding is open.
 func TestRoundTripSafeIDs(t *testing.T) {
 	g := rapid.SliceOfN(genMsg(false, false), 0, 8)
-	vk.R.Rapid(t, 2, 10000, 300000, func(t *rapid.T) {
+	vk.R.Rapid(t, 2, 20000, 300000, func(t *rapid.T) {
 		c := RoundCase{Msgs: g.Draw(t, "msgs"), Chunk: rapid.SampledFrom(chunks).Draw(t, "chunk")}
 		vk.R.Excluded("steered-away:id-beyond-2^53")
 		runRound(t, c, "src=round-safe-ids")
@@ -999,7 +999,7 @@ func runStream(t failer, c StreamCase, class string) {
 }
 
 func TestMalformed(t *testing.T) {
-	vk.R.Rapid(t, 3, 12000, 350000, func(t *rapid.T) {
+	vk.R.Rapid(t, 3, 30000, 450000, func(t *rapid.T) {
 		runStream(t, genStream(t), "src=malformed")
 	})
 }
@@ -1039,7 +1039,7 @@ func TestSoup(t *testing.T) {
 		}).Filter(soupOK),
 		rapid.SliceOfN(rapid.Byte(), 0, 64),
 	)
-	vk.R.Rapid(t, 4, 8000, 200000, func(t *rapid.T) {
+	vk.R.Rapid(t, 4, 20000, 200000, func(t *rapid.T) {
 		c := StreamCase{Label: "soup", Data: g.Draw(t, "data"), Chunk: rapid.SampledFrom(chunks).Draw(t, "chunk")}
 		v, in := readStream(c)
 		vk.R.Case(false, "")
